@@ -141,3 +141,79 @@ def oracle_pose_sweep(case, ctx):
 CHECKS.append(Check('pose_sweep', oracle_pose_sweep, enumerate=enum_pose_sweep, shards={'quick': 8, 'thorough': 16}, exhaustive=True,
                     rule='a 2 x L world (L = 1100; thorough also 4100 and 65600) and its three rotations, built once; the agent put in place on the first and last 40 columns, around every power of two and on 400 evenly spaced columns x 4 headings x 2 observation functions: the four observations agree',
                     required=['length:1100']))
+
+
+# ------------------------------------------------------------------ worlds made of user-defined cells that look like sequences
+
+
+def _shelf_class():
+    from gym_gridverse import grid_object as go
+    name = 'VerifShelf'
+    if name in globals():
+        return globals()[name]
+
+    def __init__(self, tag, items=('a', 'b')):
+        self.tag = tag
+        self.items = list(items)
+
+    cls = type(name, (go.GridObject,), {
+        'state_index': 0, 'color': go.Color.NONE, 'blocks_movement': False, 'blocks_vision': False, 'holdable': False, '__init__': __init__,
+        '__len__': lambda self: len(self.items), '__getitem__': lambda self, i: self.items[i],
+        'can_be_represented_in_state': classmethod(lambda c: False), 'num_states': classmethod(lambda c: 1), '__module__': __name__, '__qualname__': name,
+        '__repr__': lambda self: f'VerifShelf({self.tag})'})
+    globals()[name] = cls
+    return cls
+
+
+def enum_shelves(tier, shard, nshards):
+    i = 0
+    for (h, w) in [(3, 3), (2, 4), (5, 3)]:
+        for f in ('fully_transparent', 'partially_occluded', 'raytracing'):
+            i += 1
+            if i % nshards == shard:
+                yield {'h': h, 'w': w, 'f': f}
+
+
+def oracle_shelves(case, ctx):
+    """a world in which every cell is a user-defined object implementing the sequence protocol (a shelf holding items), all of the same
+    length, observed from every cell and heading, and the same world turned by quarter turns: the observations agree cell by cell
+    (compared by the tags of the very objects), and every shown cell is one of the world's objects"""
+    from gym_gridverse.agent import Agent
+    from gym_gridverse.geometry import Position
+    from gym_gridverse.grid import Grid
+    from gym_gridverse.state import State
+    from vgv import envs, objs
+    Shelf = _shelf_class()
+    h, w, f = case['h'], case['w'], case['f']
+    tags = [[f'{y}.{x}' for x in range(w)] for y in range(h)]
+    fn = envs.mk_obs(f, [[-2, 0], [-1, 1]])
+
+    def view(tag_rows, y, x, hd):
+        grid = Grid([[Shelf(t) for t in row] for row in tag_rows])
+        o = fn(State(grid, Agent(Position(y, x), objs.ori(hd), None)))
+        return [[getattr(c, 'tag', type(c).__name__) for c in row] for row in o.grid.objects]
+
+    n = 0
+    for y in range(h):
+        for x in range(w):
+            for hd in HEADINGS:
+                base = guarded(ctx, f'observation {f} of a world of sequence-like cells', view, tags, y, x, hd)
+                rows, py, px, H, W, heading = tags, y, x, h, w, hd
+                for k in range(1, 4):
+                    new = [[None] * H for _ in range(W)]
+                    for a in range(H):
+                        for b in range(W):
+                            new[b][H - 1 - a] = rows[a][b]
+                    rows, py, px, H, W, heading = new, px, H - 1 - py, W, H, M.turn(heading, 1)
+                    rot = guarded(ctx, f'observation {f} of the turned world', view, rows, py, px, heading)
+                    n += 1
+                    if rot != base:
+                        ctx.fail(f'{f}: a {h}x{w} world of user-defined sequence-like cells, agent at {(y, x)} heading {hd}: the observation changes when the world is turned by {k} quarter turn(s): '
+                                 f'{base} vs {rot}', {'kind': 'egocentric', 'f': f, 'aspect': 'custom_cells'})
+    ctx.ev.case(case, nt=True, classes=['f:' + f, 'sequence_like_cells'])
+    ctx.ev.count('rotations_compared', n)
+
+
+CHECKS.append(Check('custom_cells', oracle_shelves, enumerate=enum_shelves, shards={'quick': 3, 'thorough': 3}, exhaustive=True,
+                    rule='worlds of 3x3, 2x4, 5x3 user-defined cells implementing the sequence protocol (equal lengths) x every agent cell x 4 headings x 3 observation functions x 3 quarter turns: observations agree object by object',
+                    required=['sequence_like_cells']))
